@@ -63,12 +63,13 @@ def gen_case(rng):
             return lit(rng, s)
         return lit(rng, s) + rng.choice([" ", ""]) + (cur if rng.random() < 0.7 else cur.upper())
     order = rng.random() < 0.5
+    glue = rng.choice([" + ", " + ", "+", " +"]) if phrase == "plus" else rng.choice([" - ", " - ", "-", " -"])
     if phrase == "plus":
-        text = f"{amt(x)} + {pct_text(rng, p, True)}"
+        text = f"{amt(x)}{glue}{pct_text(rng, p, True)}"
         spec = fx * (1 + fp / 100)
         kind = "M" if cur else "N"
     elif phrase == "minus":
-        text = f"{amt(x)} - {pct_text(rng, p, True)}"
+        text = f"{amt(x)}{glue}{pct_text(rng, p, True)}"
         spec = fx * (1 - fp / 100)
         kind = "M" if cur else "N"
     elif phrase in ("of", "on", "off"):
